@@ -1,4 +1,4 @@
-(* Kernel ties of family T (file_format.go): see Proofs/KernelEquiv.v. *)
+(* Tactics for the kernel ties of family T (file_format.go): see Proofs/KernelEquiv.v. *)
 From BS Require Import Lib.Bytes Lib.Wrap64 Lib.GoPrim Generated.Kernels Generated.KernelTie Model.Validate Proofs.KernelEquiv.
 From Coq Require Import ZArith List Bool Lia.
 Import ListNotations.
@@ -14,21 +14,3 @@ Ltac k_open_T :=
 
 Ltac k_step_T :=
   autounfold with go_kernels go_ties in *; unfold validate_fs, validate_block in *; k_destruct_tuples; k_beta; k_proj_T.
-
-Lemma k_validate_fs_tie : tie_validate_fs.
-Proof. unfold tie_validate_fs. first [exact I | k_open_T; k_arith]. Qed.
-
-Lemma k_validate_tie : tie_validate.
-Proof. unfold tie_validate. first [exact I | k_open_T; k_auto k_step_T]. Qed.
-
-Lemma k_plan_reads_tie : tie_plan_reads.
-Proof.
-  unfold tie_plan_reads.
-  first [exact I |
-    k_open_T;
-    k_loop_spec (fun (mb : list blockJ) (hs : bool) =>
-                   if forallb (fun b => validate_fs b regionOffset (add64 regionOffset regionSize)) mb
-                   then @LDone bool (option (Z * Z * bool)) (hs || existsb (fun b => bfs b >? 0) mb)
-                   else LReturn None) k_step_T;
-    k_step_T; k_auto k_step_T].
-Qed.
